@@ -1,12 +1,12 @@
 package engine
 
 import (
-	"time"
 	"errors"
 	"fmt"
 	"strconv"
 	"sync"
 	"sync/atomic"
+	"time"
 
 	"github.com/stretchr/testify/assert"
 
